@@ -66,6 +66,9 @@ Oracles (independent of the Coq model and of the code under test; all walk point
     ``index_oracle(tree)``    C02: index groups exact, public lookups exact
     ``sibling_oracle(tree)``  C03: no two children of one parent with equal data_id
     ``refusal_oracle(step)``  C13: after a library refusal the observable state is unchanged
+    ``caller_oracle(world)``   C04 frame on the caller's side: the ONE dict the replayer passes to update_meta() for equal
+                              payloads (and mutates after each call) and the lists passed to from_dict stay the caller's;
+                              run together with the effect oracle
     ``effect_oracle(step, world)``  C04: documented effect + frame condition (harness/mut_spec.py, an independent
                               specification of every op on nested lists)
     (the three tree oracles take an optional second argument `world` so that messages name nodes by relative id)
@@ -89,6 +92,7 @@ A property module is a thin wrapper: ``descs`` yields histories / groups from th
 from __future__ import annotations
 
 import copy as _copy
+import json
 import random
 import sys
 
@@ -103,6 +107,8 @@ EMODEL = 99
 LIB_ERRORS = (1, 2, 3, 5)          # EUnique EAmbiguous EValue ENotImpl: "the library's errors"
 DEFAULT_KIND = "child"
 OP_RECURSION_LIMIT = 400
+MAX_DEPTH = 100             # observation cut-off: deeper structures render as [-3, [], []] (the model never does)
+CALLER_MARK = "__caller__"  # key the harness adds to ITS OWN dict after update_meta returned
 
 
 class CallbackFault(Exception):
@@ -158,6 +164,8 @@ class World:
         self.base = H.alloc_count()
         self.trees: list = []
         self.calcs: list = []
+        self.caller_dicts: dict = {}     # update_meta payload (json) -> the ONE dict object the caller passes for it
+        self.caller_msgs: list = []      # aliasing found while an op ran (from_dict arguments)
 
     # -- references -----------------------------------------------------
     def rel(self, node) -> int:
@@ -242,7 +250,7 @@ class World:
 
     # -- observation --------------------------------------------------------
     def obs_node(self, n, depth=0):
-        if depth > 300:                  # a cycle or a runaway copy: cut, the model can never agree
+        if depth > MAX_DEPTH:            # a cycle or a runaway copy: cut, the model can never agree
             return [-3, [], []]
         a = self.U.index(n._data) if n._data is not None or True else -1
         kind = getattr(n, "_kind", None) if isinstance(n, H.TypedNode) else None
@@ -256,7 +264,7 @@ class World:
         parents = []
 
         def walk(n, depth=0):
-            if depth > 300:
+            if depth > MAX_DEPTH:
                 return
             for c in (n._children or []):
                 try:
@@ -325,6 +333,53 @@ def _items_py(w, items):
 
 def _items_coq(w, items):
     return H.coq_list(f"(DI {w.coq_dat(d)} {coq_odid(did)} {_items_coq(w, ch)})" for d, did, ch in items)
+
+
+def _call_from_dict(w, fn, items):
+    """call from_dict with caller-owned lists/dicts, check the library did not change them, then let the
+    caller go on using (mutating) them: a library that keeps the caller's lists shows it in the next observation"""
+    arg = _items_py(w, items)
+    snap = _items_py(w, items)
+    try:
+        return fn(arg)
+    finally:
+        if not _same_items(arg, snap):
+            w.caller_msgs.append("from_dict changed the list of dicts the caller passed")
+
+        def scribble(l):
+            for it in l:
+                scribble(it.get("children", []))
+                it["data"] = "<caller reuses its dict>"
+            l.append({"data": "<caller reuses its list>"})
+
+        scribble(arg)
+
+
+def _same_items(a, b):
+    if len(a) != len(b):
+        return False
+    for x, y in zip(a, b):
+        if set(x) != set(y) or x["data"] is not y["data"] or x.get("data_id") != y.get("data_id"):
+            return False
+        if not _same_items(x.get("children", []), y.get("children", [])):
+            return False
+    return True
+
+
+def caller_oracle(w):
+    """C04 frame, caller side: objects the caller passed in (update_meta dicts, from_dict lists) are the
+    caller's; editing a node must never change them."""
+    if w.caller_msgs:
+        return "alias: " + w.caller_msgs[0]
+    for slot in w.caller_dicts.values():
+        if not slot["used"]:
+            continue
+        exp = dict(slot["payload"])
+        exp[CALLER_MARK] = 1
+        if slot["obj"] != exp:
+            return (f"alias: the dict the caller passed to update_meta() is now {slot['obj']!r} (expected {exp!r}): "
+                    "a node stored the caller's object instead of a copy and was edited")
+    return None
 
 
 class NotLive(Exception):
@@ -563,7 +618,20 @@ def execute(w: World, op):
         else:
             vals = H.coq_list(f"({H.coq_text(kk)}, {H.sx(H.meta_val(vv))})" for kk, vv in mo[1].items())
             c = f"(MUpdate {vals} {H.coq_bool(mo[2])})"
-            f = lambda: nn.update_meta(dict(mo[1]), replace=mo[2])  # noqa: E731
+            # The caller keeps ONE dict per payload for the whole history, passes it again and again and goes
+            # on using it (adds a key) after each call: an implementation that stores the caller's object
+            # instead of a copy shows the marker / the other nodes' edits in the next observation.
+            slot = w.caller_dicts.setdefault(json.dumps(mo[1], sort_keys=True), {"payload": dict(mo[1]), "obj": {}, "used": False})
+            obj = slot["obj"]
+
+            def f():
+                obj.clear()
+                obj.update(slot["payload"])
+                slot["used"] = True
+                try:
+                    nn.update_meta(obj, replace=mo[2])
+                finally:
+                    obj[CALLER_MARK] = 1
         return (lambda: ret(f())), f"(OMeta {ti} {n} {c})", False
 
     if k == "filter":
@@ -584,12 +652,12 @@ def execute(w: World, op):
         _, ti, p, items = op
         pn = _need(w.parent_ref(ti, p))
         coq = f"(OFromDict {ti} {p} {_items_coq(w, items)})"
-        return (lambda: ret(pn.from_dict(_items_py(w, items)))), coq, False
+        return (lambda: ret(_call_from_dict(w, pn.from_dict, items))), coq, False
 
     if k == "tree_from_dict":
         items = op[1]
         coq = f"(OTreeFromDict {_items_coq(w, items)})"
-        return (lambda: ret(Tree.from_dict(_items_py(w, items)))), coq, False
+        return (lambda: ret(_call_from_dict(w, Tree.from_dict, items))), coq, False
 
     raise ValueError(f"unknown op {op!r}")
 
@@ -683,22 +751,44 @@ def replay(hist, oracles=ALL_ORACLES, keep_world=False) -> Run:
         run.stats[kind] = run.stats.get(kind, 0) + 1
         for name in oracles:
             msg = None
-            if name == "wf":
-                msg = first(wf_oracle(t, w) for t in w.trees)
-            elif name == "index":
-                msg = first(index_oracle(t, w) for t in w.trees)
-            elif name == "sibling":
-                msg = first(sibling_oracle(t, w) for t in w.trees)
-            elif name == "refusal":
-                msg = refusal_oracle(step)
-            elif name == "effect":
-                msg = effect_oracle(step, w)
+            try:
+                if name == "wf":
+                    msg = first(wf_oracle(t, w) for t in w.trees)
+                elif name == "index":
+                    msg = first(index_oracle(t, w) for t in w.trees)
+                elif name == "sibling":
+                    msg = first(sibling_oracle(t, w) for t in w.trees)
+                elif name == "refusal":
+                    msg = refusal_oracle(step)
+                elif name == "effect":
+                    msg = effect_oracle(step, w) or caller_oracle(w)
+            except RecursionError:
+                msg = f"{name}: the state after {op[0]} is cyclic or nests too deep to be examined (runaway structure)"
+            except Exception as e:  # a corrupted implementation state must be a verdict, not a harness error
+                msg = f"{name}: the state after {op[0]} cannot be examined: {type(e).__name__}: {str(e)[:120]}"
             if msg:
                 run.fails.append((si, name, msg))
         before = after
     if keep_world:
         run.world = w
     return run
+
+
+def safe_obs(obs):
+    """The observation if it can be rendered as an sx term, else a marker the model can never produce."""
+    try:
+        H.sx(obs)
+        return obs
+    except RecursionError:
+        return [-3]
+
+
+def changed(a, b):
+    """a != b for snapshots that may nest very deep"""
+    try:
+        return a != b
+    except RecursionError:
+        return True
 
 
 def first(it):
@@ -728,8 +818,8 @@ def _reach(t, nid=H.nid):
     probs = []
 
     def rec(n, anc):
-        if len(anc) > 300:
-            probs.append("tree deeper than 300 levels (runaway copy)")
+        if len(anc) > MAX_DEPTH:
+            probs.append(f"tree deeper than {MAX_DEPTH} levels (cyclic or runaway structure)")
             return
         for c in (n._children or []):
             if id(c) in seen:
@@ -1030,6 +1120,7 @@ class Gen:
             if not ids:
                 return
             mo = rng.choice([["set", "k", 1], ["set", "k", None], ["set", "j", "v"], ["clear", None], ["clear", "k"], ["set", "", 2], ["clear", ""],
+                             ["update", {"z": 1, "k": 2}, False], ["update", {"z": 1, "k": 2}, True], ["clear", "z"], ["set", "z", 9],
                              ["update", {"z": 1, "k": 2}, False], ["update", {"z": 3}, True], ["update", {}, True]])
             return self.do(["meta", ti, rng.choice(ids), mo])
         if k == "filter":
@@ -1392,6 +1483,7 @@ def renumber(op, dropped):
 # Minimal witnesses of repaired defects (each fails an oracle on the unchanged code)
 # ---------------------------------------------------------------------------
 CORPUS: list = [
+ {"id": "R-meta-alias", "univ": ["s:a", "s:b", "s:c"], "ops": [["new", False, None], ["add", 0, 0, 0, None, None, None], ["add", 0, 0, 1, None, None, None], ["add", 0, 1, 2, None, None, None], ["meta", 0, 1, ["update", {"z": 1}, False]], ["meta", 0, 2, ["update", {"z": 1}, False]], ["meta", 0, 1, ["set", "k", 1]], ["meta", 0, 2, ["clear", "z"]], ["meta", 0, 3, ["update", {"z": 1}, True]], ["meta", 0, 3, ["set", "z", 5]], ["meta", 0, 1, ["update", {"q": 2}, False]], ["meta", 0, 2, ["update", {"z": 1}, True]]]},
  {"id": "D03b", "univ": ["s:a", "s:b", "s:c"], "ops": [["new", False, None], ["add", 0, 0, 0, None, None, None], ["add", 0, 1, 1, None, None, None], ["add", 0, 2, 0, None, None, None], ["add", 0, 0, 2, None, None, None], ["add", 0, 4, 0, None, None, None], ["remove", 0, 5, False, True]]},
  {"id": "R-meta", "univ": ["s:a"], "ops": [["new", False, None], ["add", 0, 0, 0, None, None, None], ["meta", 0, 1, ["set", "k", 1]], ["meta", 0, 1, ["set", "", 2]], ["meta", 0, 1, ["clear", ""]], ["meta", 0, 1, ["update", {}, True]], ["meta", 0, 1, ["update", {"z": 1}, False]], ["meta", 0, 1, ["set", "z", None]]]},
  {"id": "D70", "univ": ["s:a", "s:b", "s:x", "s:y"], "ops": [["new", False, None], ["new", False, None], ["add", 0, 0, 0, None, None, None], ["add", 0, 0, 1, None, None, None], ["add", 1, 0, 2, None, None, None], ["add", 1, 0, 3, None, None, None], ["addtree", 1, 0, 0, {"n": 4}, None]]},
